@@ -21,7 +21,7 @@ func init() {
 	Register(&Prop{
 		ID:    "C16",
 		Title: "Registering a name charges the listed price and yields a live name for the term",
-		Cases: func(t string) int { return tierN(t, 300, 5000) },
+		Cases: func(t string) int { return tierN(t, 300, 30000) },
 		Run:   runC16,
 		Rule: "case = one chain with 3 names seeded in genesis (label lengths 1..8, both TLDs, owners a0..a3, expiry heights 3..11, optionally one long-lived) run for ~14-20 blocks; 14..24 registrations (MsgRegisterName and the deprecated MsgRegister, labels mixed-case, occasionally with a space) of seeded / fresh / previously registered names by owner / previous owner (made by a transfer) / stranger, at heights before, exactly at, one after and long after the seeded expiry, plus free names handed out by MsgInit and then paid for by their holder while still locked, with year counts from {1, 2..20, 0, -1, 1e12, 2^31, 2^62, MaxInt64, MinInt64} and, per price tier, ceil(k*2^64/price) (int64 product with the price wraps to a small positive amount) and ceil(k*2^64/5484530)+-1 (term in blocks wraps); accounts hold 1e24 ujkl so that even wrapped prices are affordable; " +
 			"every registration is one oracle evaluation: on success registrant debited exactly years*GetCostOfName (big integers), protocol-liquidity account credited exactly that, nobody else (rns module included) moves, Name resolves to the registrant, fresh/expired name: Expires >= h + years*5484530, live name renewed by its owner: Expires grows by exactly years*5484530, live name (h <= Expires) never registered by a non-owner; on rejection nothing moves; " +
